@@ -79,7 +79,7 @@ async fn usable(doc: &CoreDocument, storage: &Storage<StrongholdStorage, Strongh
     .map_err(|e| format!("token does not verify: {e}"))
 }
 
-pub async fn history(stronghold: &StrongholdStorage, t: &mut Tape) -> Outcome {
+pub async fn history(stronghold: &StrongholdStorage, t: &mut Tape, snapshot: &std::path::Path) -> Outcome {
   let mut out = Outcome { trace: vec![], violations: vec![], ops: 0, faults: 0 };
   let storage: Storage<StrongholdStorage, StrongholdStorage> = Storage::new(stronghold.clone(), stronghold.clone());
   let did = CoreDID::parse("did:sim:sh9").unwrap();
@@ -98,6 +98,65 @@ pub async fn history(stronghold: &StrongholdStorage, t: &mut Tape) -> Outcome {
     out.ops += 1;
     // fault plan of this operation: none (two in five), or a tape-drawn subset of its first four snapshot writes
     let mask: u32 = if t.chance(2, 5) { 0 } else { 1 + t.choose(15) as u32 };
+    // one operation in six (once something is stored): the key of the Stronghold is cleared (what its timeout does), a
+    // storage-backed call is attempted while it is locked, and the password is set again. Only what was persisted
+    // counts while locked; afterwards every method generated before must still have its key and be usable.
+    if !tracked.is_empty() && t.chance(1, 6) {
+      if let SecretManager::Stronghold(adapter) = stronghold.as_secret_manager() {
+        adapter.clear_key().await;
+        let attempt = t.choose(3);
+        let what = match attempt {
+          0 => {
+            let r = doc
+              .generate_method(&storage, KeyType::new("Ed25519"), JwsAlgorithm::EdDSA, Some("locked"), MethodScope::VerificationMethod)
+              .await;
+            if r.is_ok() {
+              viol!("C09.ok_complete", "stronghold/locked/generate-succeeds", "generate_method succeeded while the key of the Stronghold was cleared".to_owned());
+            }
+            format!("generate_method -> {}", if r.is_ok() { "Ok" } else { "Err" })
+          }
+          1 => format!("exists -> {:?}", stronghold.exists(&KeyId::new(tracked[0].key_id.clone())).await.ok()),
+          _ => format!("get_key_id -> {}", if stronghold.get_key_id(&tracked[0].digest).await.is_ok() { "Ok" } else { "Err" }),
+        };
+        let unlocked = adapter.set_password(Password::from("simulated".to_owned())).await;
+        out.trace.push(format!("op{step} key cleared; {what}; password set again -> {}", if unlocked.is_ok() { "Ok" } else { "Err" }));
+        // one successful write after unlocking
+        let extra = format!("u{step}");
+        let wrote = doc
+          .generate_method(&storage, KeyType::new("Ed25519"), JwsAlgorithm::EdDSA, Some(extra.as_str()), MethodScope::VerificationMethod)
+          .await
+          .is_ok();
+        if wrote {
+          if let Some(m) = doc.resolve_method(extra.as_str(), None).cloned() {
+            if let (Ok(d), true) = (MethodDigest::new(&m), true) {
+              if let Ok(k) = stronghold.get_key_id(&d).await {
+                tracked.push(Tracked { fragment: extra.clone(), key_id: k.as_str().to_owned(), digest: d });
+              }
+            }
+          }
+        }
+        for tr in &tracked {
+          let exists = stronghold.exists(&KeyId::new(tr.key_id.clone())).await.unwrap_or(false);
+          let mapped = stronghold.get_key_id(&tr.digest).await.ok().map(|k| k.as_str() == tr.key_id).unwrap_or(false);
+          let usable_now = usable(&doc, &storage, tr.fragment.as_str()).await;
+          if !exists || !mapped || usable_now.is_err() {
+            viol!(
+              "C09.err_state_unchanged",
+              "stronghold/locked/keys-lost-after-unlock",
+              format!(
+                "after the key of the Stronghold was cleared, a call was attempted ({what}) and the password was set again, method #{} has key: {exists}, key id: {mapped}, usable: {usable_now:?}",
+                tr.fragment
+              )
+            );
+            break;
+          }
+        }
+        if !out.violations.is_empty() {
+          break;
+        }
+        continue;
+      }
+    }
     let purge = !tracked.is_empty() && t.chance(1, 2);
     let doc_before = doc.clone();
     let entries_before = key_id_entries(stronghold).await;
@@ -250,6 +309,45 @@ pub async fn history(stronghold: &StrongholdStorage, t: &mut Tape) -> Outcome {
       break;
     }
   }
+  // ---- keys nobody can name: a `generate` whose snapshot write fails returns an error instead of the key id, the only
+  // handle on the new key. Such a key is not observable through the storage interfaces; what IS observable is the
+  // snapshot file: after 20 refused generations and one successful write it must not have grown by 20 keys.
+  if out.violations.is_empty() && t.chance(1, 5) {
+    let probe_jwk: identity_verification::jose::jwk::Jwk =
+      serde_json::from_value(serde_json::json!({"kty":"OKP","crv":"Ed25519","alg":"EdDSA","x":"CQkJCQkJCQkJCQkJCQkJCQkJCQkJCQkJCQkJCQkJCQk"})).unwrap();
+    let probe_method = identity_verification::VerificationMethod::new_from_jwk(CoreDID::parse("did:sim:sh9").unwrap(), probe_jwk, Some("probe"));
+    if let Some(digest) = probe_method.ok().and_then(|m| MethodDigest::new(&m).ok()) {
+      let size = |p: &std::path::Path| std::fs::metadata(p).map(|m| m.len()).unwrap_or(0);
+      let write_twice = |s: StrongholdStorage, d: MethodDigest| async move {
+        let a = s.insert_key_id(d.clone(), KeyId::new("probe")).await.is_ok();
+        let b = s.delete_key_id(&d).await.is_ok();
+        a && b
+      };
+      if write_twice(stronghold.clone(), digest.clone()).await {
+        let before = size(snapshot);
+        let mut refused = 0;
+        for _ in 0..20 {
+          identity_stronghold::verif_hooks::set_snapshot_write_faults(1);
+          if stronghold.generate(KeyType::new("Ed25519"), JwsAlgorithm::EdDSA).await.is_err() {
+            refused += 1;
+          }
+          identity_stronghold::verif_hooks::set_snapshot_write_faults(0);
+        }
+        out.faults += refused;
+        if write_twice(stronghold.clone(), digest).await {
+          let after = size(snapshot);
+          out.trace.push(format!("orphan probe: {refused} refused generations; snapshot {before} -> {after} bytes"));
+          if refused == 20 && after > before + 1500 {
+            viol!(
+              "C09.err_state_unchanged",
+              "stronghold/generate/refused-generations-grow-the-snapshot",
+              format!("20 generations that returned an error (no key id handed out) and one successful write grew the snapshot file from {before} to {after} bytes: the keys nobody can name were persisted")
+            );
+          }
+        }
+      }
+    }
+  }
   out
 }
 
@@ -267,7 +365,7 @@ pub fn run_history(seed: u64, idx: u64, work: &str, replay_tape: Option<Vec<u32>
     Some(d) => Tape::replay(d),
     None => Tape::record(tape::mix(seed ^ 0xC09, idx)),
   };
-  let out = rt.block_on(history(&storage, &mut t));
+  let out = rt.block_on(history(&storage, &mut t, &file));
   drop(storage);
   let _ = std::fs::remove_file(&file);
   (out, t.rec)
